@@ -109,6 +109,37 @@ CLAIMED = {
         "technique": "Coq proof (radix/bit-list algebra, checksummed bijection) + regenerated word list + checked correspondence",
         "design": "DESIGN.md section 8 / C10",
     },
+    "C04": {
+        "text": "Machine-checked proof (Coq 8.16.1) for an arbitrary hash: for every well-formed transaction t and EVERY trailing byte string, "
+                "tx_deser(ser t ++ rest) returns leftover = rest, txid = HASH256(serialisation without marker/flag/witness, with the "
+                "transaction's own sequence numbers), wtxid = HASH256(complete serialisation), raw = exactly the transaction's bytes; "
+                "for non-witness transactions txid = wtxid; the reported record and leftover do not depend on what follows "
+                "(ids_independent_of_trailing: two different trailing buffers give the same record); the parser always consumes at least "
+                "one byte. Correspondence: the C05 transaction grammar x trailing buffers (empty, single bytes that do / do not occur in "
+                "the tx, the tx's own last 4 bytes, a second tx, a copy of itself) x sequences {0, fffffffe, ffffffff, random}, "
+                "independent Python serialiser + hashlib.",
+        "note": "Theorems are about the hand-written model of tx.tx_deser / tx.tx (Model/Tx.v) shared with C05; wf_tx demands at least "
+                "one input (a zero-input legacy encoding is indistinguishable from the segwit marker - shown by an Example). sha256 "
+                "arbitrary. Trusted: Coq kernel, extraction, harness, hashlib.",
+        "technique": "Coq proof (codec round trip with trailing bytes, id = hash of spec serialisation) + correspondence",
+        "design": "DESIGN.md section 8 / C04",
+    },
+    "C05": {
+        "text": "Machine-checked proof (Coq 8.16.1): CompactSize - compact_size_uint equals the reference encoding on [0, 2^64-1], is the "
+                "shortest encoding (1/3/5/9 bytes at the thresholds 253, 2^16, 2^32), round-trips with any trailing bytes and refuses "
+                "n < 0 and n >= 2^64 with ValueError; witness stacks (0..any items, any item length < 2^64, empty stack) round-trip with "
+                "any trailing bytes and equal the BIP144 form; for every well-formed transaction (any version, locktime, values, "
+                "sequences, script lengths, with or without witness, mixed empty stacks) and every trailing byte string, "
+                "tx_deser(tx_ser t ++ rest) returns exactly the fields of t and leftover = rest, and re-serialising the parsed fields "
+                "reproduces the original bytes; the parsers never run out of fuel. Constants regenerated (= Spec). Correspondence: "
+                "grammar with counts crossing 253, script/witness lengths {0,1,75,76,252,253,255,256,65535,65536}, exhaustive "
+                "CompactSize on [0, 2^16+2] (thorough) and around every 2^k, BIP143 example transactions, independent Python codec.",
+        "note": "Theorems are about the hand-written models of tx.py, utils.compact_size_uint/parse_compact_size_uint and the witness "
+                "mode of script()/decode_script(); wf_tx requires at least one input and in-range field widths; the witness model covers "
+                "data items. sha256 arbitrary. Trusted: Coq kernel, extraction, harness.",
+        "technique": "Coq proof (verified codec combinators: prefix law, shortest-encoding, round trip) + regenerated constants + correspondence",
+        "design": "DESIGN.md section 8 / C05",
+    },
     "C06": {
         "text": "Machine-checked proof (Coq 8.16.1), full strength: for every byte string s, the library's decode+validity check accepts s "
                 "IFF the BIP173/BIP350 validity predicate transcribed from the BIPs does (decode_valid s = Ok r <-> spec_decode s = Some r: "
